@@ -131,14 +131,15 @@ type Out struct {
 func Bubble(t *testing.T, f func(t *testing.T)) (panicked any) {
 	defer func() {
 		if r := recover(); r != nil {
-			if e, ok := r.(error); ok && strings.Contains(e.Error(), "deadlock:") {
+			// leaked (parked) goroutines after the root returned are expected;
+			// a bubble in which everything including the root is blocked is not
+			if strings.Contains(fmt.Sprint(r), "main bubble goroutine has exited") {
 				return
 			}
-			if s, ok := r.(string); ok && strings.Contains(s, "deadlock:") {
-				return
-			}
-			if strings.Contains(fmt.Sprint(r), "deadlock:") {
-				return
+			if os.Getenv("VERIF_DEBUG") != "" {
+				buf := make([]byte, 1<<20)
+				n := runtime.Stack(buf, true)
+				fmt.Fprintf(os.Stderr, "BUBBLE PANIC %v\n%s\n", r, buf[:n])
 			}
 			panicked = r
 		}
@@ -220,6 +221,11 @@ func Main(t *testing.T, scenarios map[string]RunFunc) {
 		o := opts
 		o.KeepLog = job.DumpLogs > 0
 		res := fn(t, tape, o)
+		if res.End == "" && len(res.Invalid) == 0 && len(res.Violations) == 0 {
+			// a scenario must say how its run ended; an empty value means the
+			// body was cut short (never count such a run as explored)
+			res.Invalid = append(res.Invalid, "run ended without an end reason")
+		}
 		if len(res.Invalid) > 0 {
 			out.Discarded++
 			out.DiscardWhy[res.Invalid[0]]++
